@@ -14,7 +14,7 @@ import numpy as np
 from . import graphs
 from .core import EventLog, Result
 from .simopt import OptEngineBase, draw_config, finish_result, pos_bucket, poses_snapshot
-from .world import World
+from .world import SimulatedInterrupt, World
 
 EPS = float(np.finfo(float).eps)
 CHI_REL = 1e-10
@@ -136,7 +136,7 @@ def reports_equal(a, b):
 
 class C12(OptEngineBase):
     PROPERTY = "C12"
-    SWEEP_MENU = {"stdout": STDOUT_FAULTS, "solver": SOLVER_FAULTS}
+    SWEEP_MENU = {"stdout": STDOUT_FAULTS, "solver": SOLVER_FAULTS, "usercode": ["interrupt"]}
     TIERS = {
         "quick": {"runs": 1600, "budget_s": 75, "chunk": 8},
         "thorough": {"runs": 40000, "budget_s": 900, "chunk": 16},
@@ -161,12 +161,12 @@ class C12(OptEngineBase):
     PROBES = [
         "early_stop", "stop_at_i1", "hit_max_iter_converged", "hit_max_iter_not_converged", "chi2_increase_seen", "nan_chi2",
         "chi2_exact_zero", "split_ge_3", "clock_backwards", "clock_frozen", "stdout_failed", "clone_after_abort", "clone_checked",
-        "table_parsed", "table_unparsed", "stop_rule_ambiguous", "stdout_none", "str_parsed", "singular_raised_as_error", "called_with_defaults",
+        "table_parsed", "table_unparsed", "stop_rule_ambiguous", "stdout_none", "str_parsed", "singular_raised_as_error", "called_with_defaults", "interrupted_in_user_code", "nonunit_vertex_quaternion",
     ]
 
     def generate(self, rng, tier, index):
         config = draw_config(rng)
-        workload, meta = graphs.gen_opt_workload(rng, {"self_loops": False, "alias_poses": 0.1, "init_noise": ["tiny", "moderate", "moderate", "moderate", "far"]})
+        workload, meta = graphs.gen_opt_workload(rng, {"self_loops": False, "alias_poses": 0.1, "nonunit_quats": 0.1, "init_noise": ["tiny", "moderate", "moderate", "moderate", "far"]})
         verts = workload["vertices"]
         ids = [v["id"] for v in verts]
         comps = graphs.components(workload)
@@ -204,7 +204,7 @@ class C12(OptEngineBase):
         case = {"config": config, "workload": workload, "meta": meta, "ops": ops, "faults": []}
         if rng.random() < 0.6:
             dry = self.execute(copy.deepcopy(case), dry=True)
-            menu = {"stdout": STDOUT_FAULTS, "clock": CLOCK_FAULTS, "solver": SOLVER_FAULTS}
+            menu = {"stdout": STDOUT_FAULTS, "clock": CLOCK_FAULTS, "solver": SOLVER_FAULTS, "usercode": ["interrupt"]}
             case["faults"] = self.plan_faults(rng, case, dry.counts, menu, max_faults=2)
         return case
 
@@ -238,13 +238,16 @@ class C12(OptEngineBase):
         with World(case.get("config"), None if dry else case.get("faults"), log) as w:
             A = graphs.build(case["workload"])
             types = [graphs.type_name(v.pose) for v in A._vertices]
+            if not dry and meta.get("nonunit_vertex_quaternion"):
+                res.probe("nonunit_vertex_quaternion")
             B = None if dry else graphs.build(case["workload"])
             n_opt = 0
             force_clone = False
             for i, op in enumerate(ops):
                 w.begin_op(i)
                 if op["op"] == "query":
-                    c = A.calc_chi2()
+                    with w.benign():
+                        c = A.calc_chi2()
                     log.note("query", repr(float(c)))
                     sig_ops.append("query")
                     continue
@@ -271,6 +274,8 @@ class C12(OptEngineBase):
                         result = A.optimize()
                     else:
                         result = A.optimize(verbose=op["verbose"], **kw)
+                except SimulatedInterrupt as e:  # Ctrl-C delivered by the simulator while user edge code runs
+                    raised = e
                 except Exception as e:  # noqa
                     raised = e
                 fired = w.plan.fired[fired_before:]
@@ -287,22 +292,27 @@ class C12(OptEngineBase):
                     natural = type(raised).__name__ == "MatrixRankWarning" and (case.get("config") or {}).get("warnings", {}).get("kind") == "error"
                     if natural:
                         res.probe("singular_raised_as_error")
-                    if not (fired_kinds & set(STDOUT_FAULTS)) and not natural:
+                    interrupted = isinstance(raised, SimulatedInterrupt) and "interrupt" in fired_kinds
+                    if interrupted:
+                        res.probe("interrupted_in_user_code")
+                    if not (fired_kinds & set(STDOUT_FAULTS)) and not natural and not interrupted:
                         res.violate("C12:unexpected-exception", "op %d optimize raised %s: %s with no failing sink" % (i, type(raised).__name__, raised))
                         break
-                    if not natural:
+                    if not natural and not interrupted:
                         res.probe("stdout_failed")
                     # the aborted call stopped somewhere; resynchronise the stepper from visible state
                     B = graphs.clone(A)
                     force_clone = True
                     continue
                 rep = report_of(result)
-                post_chi2 = A.calc_chi2()
+                with w.benign():
+                    post_chi2 = A.calc_chi2()
                 after = poses_snapshot(A)
                 log.note("optimize", [rep["converged"], rep["num_iterations"], repr(rep["final_chi2"])])
                 # ---- stepper twin
                 m = op["max_iter"]
-                chis = [B.calc_chi2()]
+                with w.benign():
+                    chis = [B.calc_chi2()]
                 n_upd = 0
                 ambiguous = False
                 ref_converged = False
@@ -311,7 +321,8 @@ class C12(OptEngineBase):
                 for j in range(1, m + 1):
                     self._benign_optimize(w, B, j, tol=0.0, max_iter=1, fix_first_pose=op["fix_first_pose"])
                     n_upd = j
-                    chis.append(B.calc_chi2())
+                    with w.benign():
+                        chis.append(B.calc_chi2())
                     d = stop_decision(chis[j - 1], chis[j], op["tol"])
                     if d is None:
                         ambiguous = True
